@@ -77,6 +77,8 @@ def run(chk: Check):
         # as in a driver run, the stored overlaps handed to an entry point are stale (QR + global reconfiguration
         # happened after the previous block): every entry point has to refresh them itself
         pd0["overlaps"] = pd0["overlaps"] * (0.83 + 0.4j) - 0.02
+        pd0["pop_control_ene_shift"] = pd0["e_estimate"] - 0.41      # carried over from a previous block
+        pd0["n_killed_walkers"] = jnp.array(3.0)
         smp = S(n_prop_steps=blk[0], n_ene_blocks=blk[1], n_sr_blocks=blk[2], n_blocks=1)
         norb = sysd["norb"]
         obs = []
